@@ -72,8 +72,8 @@ def sexpr_of_sympy(expr):
             return ["mul", [go(f) for f in fs]]
         if isinstance(e, sympy.Pow):
             b, x = e.args
-            if isinstance(x, sympy.Rational) and x.q != 1:
-                raise _Outside  # sqrt spellings / rational powers: excluded
+            # Rational exponents included since wave 4: the model prints the sqrt spellings
+            # (sqrt(b), 1/sqrt(b), M/sqrt(b)) and b**(p/q)
             return ["pow", go(b), go(x)]
         if isinstance(e, (sympy.Max, sympy.Min)):
             args = sorted(e.args, key=default_sort_key)
@@ -129,7 +129,10 @@ def shape_of(j) -> str:
 
 _TEXTS = ["N", "M", "K", "max(N, M)", "min(N, 2)", "Max(1, N, M)", "floor(N/2)", "N**2", "2**(-N)",
           "(N + 1)**2", "Mod(N, 3)", "N/M", "ceiling(N/3)", "Abs(N - M)", "sign(N - M)",
-          "M/N**2", "N*M", "N - M", "-N", "N/(2*M)", "2**N", "N**M", "1/N", "min(N, M, K)"]
+          "M/N**2", "N*M", "N - M", "-N", "N/(2*M)", "2**N", "N**M", "1/N", "min(N, M, K)",
+          "sqrt(N)", "1/sqrt(N)", "M/sqrt(N)", "sqrt(N + 1)", "N**(1/3)", "M/N**(2/3)", "sqrt(2)*N", "sqrt(N*M)",
+          "N**(3/2)", "M*N**(-3/2)", "M*K**(-N)", "M/K**N", "2**(-N)*M", "M*K**(-2*N)", "M*K**(-N/2)", "M*(N + 1)**(-K)", "M*(N - 1)**(-K)", "K**(-N)",
+          "M/(K**N*N)", "M*K**(-N)*N**(-M)", "M*K**(-N*M)", "M/(2*K**N)", "-M*K**(-N)", "M*K**(1 - N)", "M*K**(-N - 1)", "M/K**(N*(M + 1))", "K**(-N)/3", "M*K**(-3*N/4)", "sqrt(8)", "K/(M*sqrt(N))", "sqrt(N)/2", "2**sqrt(N)", "sqrt(N)**3", "sqrt(N/M)"]
 
 
 def _random_dim(rng: random.Random, depth: int):
@@ -248,7 +251,10 @@ def _selftest(n: int = 600, seed: int = 0) -> int:
     for b in bad_vals[:10]:
         print("  VALUE MISMATCH", b)
     print(f"value mismatches among wf cases: {len(wf_bad)}")
-    return 0 if tok_ok == total and not wf_bad else 1
+    # SWfX cases (symbolic negative exponents in a denominator): equal under every binding with denNZ
+    wfx_bad = sum(1 for a in answers if "err" not in a and a.get("wfx") and any(ok and x != y for x, y, ok in zip(a["vals_parsed"], a["vals_den"], a["nz"])))
+    print(f"swfX: {sum(bool(a.get('wfx')) for a in answers if 'err' not in a)}/{total}; value mismatches under denNZ: {wfx_bad}")
+    return 0 if tok_ok == total and not wf_bad and not wfx_bad else 1
 
 
 if __name__ == "__main__":
